@@ -138,14 +138,16 @@ def evaluate_on_grid(
     return out
 
 
-@njit(parallel=True)
+@njit
 def hist2d(x, y, values, xmin, xmax, nx, ymin, ymax, ny):
     out = np.zeros(shape=(values.shape[0], ny, nx), dtype=np.float64)
     counts = np.zeros(shape=(ny, nx), dtype=np.int64)
     dx = (xmax - xmin) / nx
     dy = (ymax - ymin) / ny
 
-    for i in prange(len(x)):
+    # The loop is sequential on purpose: several points fall in the same bin, and
+    # concurrent, unsynchronized updates of a bin would lose counts.
+    for i in range(len(x)):
         indx = int((x[i] - xmin) / dx)
         indy = int((y[i] - ymin) / dy)
         if (indx >= 0) and (indx < nx) and (indy >= 0) and (indy < ny):
